@@ -17,7 +17,10 @@ def gen_shape(rng, B, so, max_elems=300):
   return [2] * rank
 
 
-def gen_config(rng, so=None, emph=None):
+def gen_config(rng, so=None, emph=None, variants=False):
+  """variants=True also draws the Sketchy options the float64 model does not
+  cover (ekfac_svd, add_ggt, linear_approx_tail): for properties whose oracles
+  are bitwise (cadence, layout, resume)."""
   emph = emph or {}
   so = so or pick(rng, ['shampoo', 'shampoo', 'sketchy'])
   c = {'second_order': so,
@@ -33,6 +36,19 @@ def gen_config(rng, so=None, emph=None):
       'relative_epsilon': rng.random() < 0.7,
       'second_moment_decay': pick(rng, [1.0, 0.999, 0.9, 0.5]),
       'update_freq': wpick(rng, emph.get('p', [(1, 4), (2, 2), (3, 2), (5, 1)]))}
+  if variants:
+    # (drawn after everything else of the sketch so that variants=False plans
+    # are unchanged)
+    vr = rng.random()
+    if vr < 0.25:
+      c['sketchy']['ekfac_svd'] = True
+    elif vr < 0.35:
+      c['sketchy']['add_ggt'] = True
+    elif vr < 0.45:
+      c['sketchy']['linear_approx_tail'] = True
+    elif vr < 0.5:
+      c['sketchy']['ekfac_svd'] = True
+      c['sketchy']['add_ggt'] = True
   gt = emph.get('graft', pick(rng, ['none', 'sgd', 'rmsprop', 'rmsprop']))
   c['graft'] = {
       'grafting_type': gt,
